@@ -234,9 +234,13 @@ func judgeRoute(c RouteCase) *h.Verdict {
 				if rec.Code != 401 {
 					return v.Failf("not-401/"+tc.name+"/"+rt.Method+" "+rt.Path, "%s %s with token class %s answered %d %.200s (serviceNameList %v)", rt.Method, path, tc.name, rec.Code, rec.Body.String(), c.Services)
 				}
-				var body map[string]interface{}
-				if err := json.Unmarshal(rec.Body.Bytes(), &body); err != nil || len(body) != 1 || body["error"] == nil {
-					return v.Failf("handler-ran-after-401/"+rt.Method+" "+rt.Path, "%s %s (%s): 401 body is %.300s, want only the middleware's error object", rt.Method, path, tc.name, rec.Body.String())
+				// the body is the rejection alone: one JSON document (or nothing), not a rejection followed by a handler's output
+				if b := bytes.TrimSpace(rec.Body.Bytes()); len(b) > 0 {
+					dec := json.NewDecoder(bytes.NewReader(b))
+					var one interface{}
+					if err := dec.Decode(&one); err != nil || dec.More() {
+						return v.Failf("handler-ran-after-401/"+rt.Method+" "+rt.Path, "%s %s (%s): 401 body is %.300s, want the rejection alone", rt.Method, path, tc.name, rec.Body.String())
+					}
 				}
 				time.Sleep(0)
 				after := observe()
